@@ -157,6 +157,20 @@ def run(ctx):
         while done < n:
             recursive = ctx.rng.random() < 0.4
             shape = gen_shape(ctx.rng, recursive)
+            if done == 2:
+                # corpus: a finite Z over a DIVERGENT component that the start symbol weighs with zero:  S -> X(v) g(v),
+                # X(v) -> a(v) | X(v) c(v)  with c = [2, 1/2], g = [0, 1]: X(0) is infinite, Z = a(1) / (1 - 1/2) is finite, dZ/dg(0) = X(0).
+                # The solvers must treat the divergent cell alike in every interpreter mode (a guard written as an assertion vanishes
+                # under python -O)
+                recursive = True
+                shape = dict(nls=[2], terms=[[0], [0], [0]], nts=[[], [0]], start=0,
+                             rules=[dict(lhs=0, nodes=[0], ext=[], edges=[('n', 1, [0]), ('t', 2, [0])]),
+                                    dict(lhs=1, nodes=[0], ext=[0], edges=[('t', 0, [0])]),
+                                    dict(lhs=1, nodes=[0], ext=[0], edges=[('n', 1, [0]), ('t', 1, [0])])],
+                             weights={0: [1.0, 1.0], 1: [2.0, 0.5], 2: [0.0, 1.0]},
+                             vweights={0: [0.0, 0.0], 1: [-1.0, -1.0], 2: [-math.inf, 0.0]},
+                             bweights={0: [1.0, 1.0], 1: [1.0, 1.0], 2: [0.0, 1.0]})
+                ctx.count('corpus.divergent-component-weighed-zero')
             if done % 8 == 5:
                 recursive = True
                 shape = multi_linear_shape(ctx.rng)
